@@ -89,6 +89,21 @@ class OverwritingHeuristic(ForbidWord):
         problem.sequence = seq
 
 
+class RequireExactly(Specification):
+    """passes only on one given sequence (a user constraint with a single solution)"""
+    best_possible_score = 0
+
+    def __init__(self, sequence, boost=1.0):
+        self.sequence, self.boost, self.location = sequence, boost, None
+
+    def initialized_on_problem(self, problem, role=None):
+        return self._copy_with_full_span_if_no_location(problem)
+
+    def evaluate(self, problem):
+        d = sum(1 for x, y in zip(problem.sequence, self.sequence) if x != y)
+        return SpecEvaluation(self, problem, score=-d, locations=[] if d == 0 else [self.location])
+
+
 class CountLetter(Specification):
     """objective: number of `letter` in [a,b) (maximise); localizes to the overlap"""
     best_possible_score = None
@@ -115,7 +130,7 @@ class CountLetter(Specification):
 
 
 CUSTOM = {c.__name__: c for c in (ForbidWord, ForbidWordBadLocal, ForbidWordNoneLocal, NoLocations,
-                                  LazyHeuristic, GivingUpHeuristic, OverwritingHeuristic, CountLetter)}
+                                  LazyHeuristic, GivingUpHeuristic, OverwritingHeuristic, RequireExactly, CountLetter)}
 
 
 class CountLetterCapped(CountLetter):
